@@ -38,6 +38,8 @@ CHECKS = {
          "TLA+ Listing (HelpModel.tla) evaluated by TLC on tokenised real help output of every command level", "6 (C12)"),
  "C16": ("exploration", "Definitions whose texts carry roff/HTML/markdown metacharacters are rendered with render_markdown/html/manpage; per document TLC checks token coverage of every reachable level against Listing (HelpModel.tla) and accepts or rejects the lexed tag stream (pushdown over bpaf's tag vocabulary, balanced, no stray `<`) and the roff line stream (control lines are bpaf's requests, every backslash one of bpaf's escapes) with Markup.tla.",
          "TLA+ acceptors (Markup.tla pushdown / line machine, HelpModel.tla listing) validating lexed real documents", "6 (C16)"),
+ "C13": ("exploration", "Wrap.tla is an acceptor of console renderings (content with whitespace removed equals the unwrapped rendering; for widths >= 40 every line fits in width+2, is preformatted, or holds a single word after its indentation/definition term); WrapDesign model-checks that the greedy wrap of every small word sequence is accepted (not vacuous, not over-strict); help and error documents of definitions with grammar-generated texts are rendered at 25 (quick) / 300 (thorough) widths and every rendering and short form is validated by TLC.",
+         "TLA+ acceptor Wrap.tla (design-checked by WrapDesign) validating lexed real renderings at many widths", "6 (C13)"),
 }
 NOTE = "Bounded: exhaustive within the stated constants, sampled beyond; trusted: TLC, the JSON reader, the dynamic builder (public bpaf API only)."
 
@@ -50,10 +52,12 @@ def main():
                    "baseline_off_cmd": "cd /repo && cargo nextest run --workspace --no-fail-fast --test-threads 8 --offline",
                    "source_commits": hook_commits, "add_only": True},
          "engines": [
-             {"name": "cmdline", "path": "tla/CmdLine.tla", "serves_properties": sorted(set(CHECKS) - {"C07", "C19", "C11", "C12", "C16"}),
+             {"name": "cmdline", "path": "tla/CmdLine.tla", "serves_properties": sorted(set(CHECKS) - {"C07", "C19", "C11", "C12", "C16", "C13"}),
               "kind_free_text": "TLA+ left-to-right acceptor with denotation; TLC design/replay/trace configurations; Rust harness building real bpaf parsers from the same JSON definitions"},
              {"name": "docs", "path": "tla/HelpModel.tla", "serves_properties": ["C12", "C16"],
               "kind_free_text": "Listing model of help/documentation (HelpModel.tla) and markup acceptors (Markup.tla); the harness renders and lexes, TLC judges"},
+             {"name": "wrap", "path": "tla/Wrap.tla", "serves_properties": ["C13"],
+              "kind_free_text": "acceptor of wrapped console output (Wrap.tla) with a design model (WrapDesign.tla)"},
              {"name": "process", "path": "tla/Process.tla", "serves_properties": ["C11"],
               "kind_free_text": "TLA+ protocol of a process built around OptionParser::run(); ProcessTrace validates recorded runs of harness-app"},
              {"name": "groupline", "path": "tla/GroupLine.tla", "serves_properties": ["C07", "C19"],
@@ -68,7 +72,7 @@ def main():
                                 "thorough_cmd": f"bin/check {pid} --tier thorough",
                                 "evidence_file": f"/verif/evidence/{pid}.json",
                                 "replay_cmd_template": f"bin/check {pid} --replay {{path}}",
-                                "engine": "groupline" if pid in ("C07", "C19") else "process" if pid == "C11" else "docs" if pid in ("C12", "C16") else "cmdline",
+                                "engine": "groupline" if pid in ("C07", "C19") else "process" if pid == "C11" else "docs" if pid in ("C12", "C16") else "wrap" if pid == "C13" else "cmdline",
                                 "level_claimed": {"category": lvl, "text": text, "design_ref": f"DESIGN.md section {ref}"},
                                 "level_note": NOTE, "technique": tech})
         else:
